@@ -648,3 +648,101 @@ def norm_13(ctx, rep):
     if not n_sites:
         raise AnalysisError('NORM-13: no call of split_prefix found')
     rep.stat('norm13_split_prefix_calls', n_sites)
+
+
+def norm_14(ctx, rep):
+    """The PEP 8 indentation stack is a parent-linked list whose root has parent None.  Three walkers test for None, so
+    a fourth that does not is a contradiction (Engler): it runs past the root as soon as its stop condition is not met
+    on the way up (F23: the node it looks for was pushed inside the same prefix and is no ancestor)."""
+    rep.rule('NORM-14', 'every walk up the parent chain of the PEP 8 indentation stack stops at the root: the step '
+                        '`n = n.parent` is taken in a loop that tests n for None (loop test, or a test-and-exit right after '
+                        'the step), or only on a node whose class always has a parent (isinstance test + required '
+                        'constructor argument)')
+    from ..facts import facts_at
+    mod = ctx.prog.mod(PEP8)
+    # classes of stack nodes: those of pep8.py whose __init__ stores a `parent` parameter
+    stack_classes = {}
+    for c in mod.classes.values():
+        for k in (c.mro or [c]):
+            init = k.methods.get('__init__') if isinstance(k, Cls) else None
+            if init is None or k.mod is not mod:
+                continue
+            stores = any(isinstance(n, ast.Assign) and any(isinstance(t, ast.Attribute) and t.attr == 'parent' and norm(t.value) == 'self'
+                                                           for t in n.targets) for n in walk_own(init.node))
+            if stores or any(isinstance(n, ast.Call) and norm(n.func).endswith('__init__') and
+                             any(kw.arg == 'parent' for kw in n.keywords) for n in walk_own(init.node)):
+                a = init.node.args
+                names = [x.arg for x in a.args]
+                required = 'parent' in names and names.index('parent') < len(names) - len(a.defaults)
+                stack_classes[c.name] = required
+                break
+    if not stack_classes:
+        raise AnalysisError('anchor vanished: the indentation-stack node classes of pep8.py (an __init__ storing self.parent)')
+    rep.stat('indentation_stack_classes', {k: ('parent required' if v else 'parent optional') for k, v in sorted(stack_classes.items())})
+
+    def is_stack_walk(f, name, loop):
+        # where does the walking variable come from: an attribute *_tos, `self` of a stack class, a parameter named parent
+        for n in walk_own(f.node):
+            if isinstance(n, ast.Assign) and any(isinstance(t, ast.Name) and t.id == name for t in n.targets):
+                v = norm(n.value)
+                if v == name + '.parent':
+                    continue
+                if 'indentation_tos' in v:
+                    return True
+                if v == 'self' and f.cls is not None and f.cls.name in stack_classes:
+                    return True
+                if v == 'parent' and f.cls is not None and f.cls.name in stack_classes and 'parent' in f.params():
+                    return True
+        return False
+
+    n_sites = 0
+    for f in mod.funcs.values():
+        for loop in walk_own(f.node):
+            if not isinstance(loop, (ast.While, ast.For)):
+                continue
+            for st in ast.walk(loop):
+                if not (isinstance(st, ast.Assign) and len(st.targets) == 1 and isinstance(st.targets[0], ast.Name)
+                        and isinstance(st.value, ast.Attribute) and st.value.attr == 'parent'
+                        and isinstance(st.value.value, ast.Name) and st.value.value.id == st.targets[0].id):
+                    continue
+                x = st.targets[0].id
+                # innermost loop only
+                inner = st
+                p = getattr(st, '_parent', None)
+                while p is not None and not isinstance(p, (ast.While, ast.For)):
+                    p = getattr(p, '_parent', None)
+                if p is not loop or not is_stack_walk(f, x, loop):
+                    continue
+                n_sites += 1
+                ok = False
+                why = ''
+                if isinstance(loop, ast.While):
+                    from ..facts import atoms as _atoms
+                    head_pos = {t for t, pol in _atoms(loop.test, True) if pol}
+                    head_neg = {t for t, pol in _atoms(loop.test, True) if not pol}
+                    if x in head_pos or ('%s is None' % x) in head_neg or ('%s is not None' % x) in head_pos:
+                        ok, why = True, 'the loop test establishes that %s is not None' % x
+                if not ok:
+                    blk = None
+                    par = getattr(st, '_parent', None)
+                    for field in ('body', 'orelse', 'finalbody'):
+                        b = getattr(par, field, None)
+                        if isinstance(b, list) and st in b:
+                            blk = b
+                    if blk is not None:
+                        i = blk.index(st)
+                        if i + 1 < len(blk) and isinstance(blk[i + 1], ast.If) and blk[i + 1].body \
+                                and isinstance(blk[i + 1].body[-1], (ast.Break, ast.Return, ast.Raise)):
+                            t = norm(blk[i + 1].test)
+                            if t in ('%s is None' % x, 'not %s' % x):
+                                ok, why = True, 'None is tested right after the step'
+                if not ok:
+                    for t, pol in facts_at(st, f.node):
+                        if pol and t.startswith('isinstance(%s, ' % x):
+                            cls = t[len('isinstance(%s, ' % x):-1]
+                            if stack_classes.get(cls):
+                                ok, why = True, 'the step is taken only on a %s, which always has a parent' % cls
+                rep.ob('NORM-14', PEP8, f.qual, 'walk: %s in `%s`' % (norm(st), head(loop)), ok,
+                       'the walk up the indentation stack can step past the root (parent None) and dereference it: '
+                       'nothing in the loop tests %s for None' % x, reason=why)
+    rep.minimum('NORM-14', 3)
